@@ -132,45 +132,8 @@ fn look(lon: f64, lat: f64, r: i32) -> Option<LookRec> {
     Some(LookRec { lon, lat, res: r, id, pinned: rc::resolution(id) == Some(r) && pinned_margin(id, lon, lat) })
 }
 
-/// second-generation cells: positions whose low 8 / 12 / 16 curve digits are all 0 or all 3 below a
-/// pseudo-random prefix (word-aligned ids, first / last descendants many levels down), every
-/// (face, quintant), resolutions from 10 up
 fn golden_cells2() -> Vec<u64> {
-    let mut v = Vec::new();
-    let mut x: u64 = 0x2545F4914F6CDD1D;
-    for face in 0..12u64 {
-        for quintant in 0..5u64 {
-            for res in [10, 13, 14, 17, 18, 19, 21, 22, 25, 26, 28, 29] {
-                let levels = (res - 1) as u32;
-                for k in [8u32, 12, 16, 20] {
-                    if k >= levels {
-                        continue;
-                    }
-                    for fill in [0u64, 3] {
-                        for _ in 0..2 {
-                            x ^= x << 13;
-                            x ^= x >> 7;
-                            x ^= x << 17;
-                            let hi_digits = levels - k;
-                            let mut prefix = x & ((1u64 << (2 * hi_digits.min(31))) - 1);
-                            // last prefix digit differs from the fill digit
-                            if prefix & 3 == fill {
-                                prefix ^= 1;
-                            }
-                            let low = if fill == 0 { 0 } else { (1u64 << (2 * k)) - 1 };
-                            let s = (prefix << (2 * k)) | low;
-                            if let Some(id) = rc::encode(rc::Tuple { face, quintant, s, res }) {
-                                v.push(id);
-                            }
-                        }
-                    }
-                }
-            }
-        }
-    }
-    v.sort_unstable();
-    v.dedup();
-    v
+    en::aligned_cells()
 }
 
 /// GOLDEN gen2: additional frozen tables (cells2.bin, lookups2.bin), same record formats
